@@ -9,6 +9,8 @@ Three layers, all fed by ctx.rng:
   * the property oracle, independent of the model: (a) a reference TAP consumer over *structured*
     line items whose meaning the generator knows (so no regex is involved on the oracle side),
     (b) event-list consistency rules for arbitrary text, (c) the bad-verdict iff, (d) "never raises";
+  * state that outlives a parser object (harness/c18_state.py): shared-state harvest, sessions of fresh parsers in one
+    process / in fresh interpreters, concurrent TestRunTAP objects; the consumer (TestRunTAP) as a state machine;
   * search/replay.
 """
 from __future__ import annotations
@@ -19,6 +21,7 @@ import itertools
 import json
 import os
 import re
+import subprocess
 import types
 import typing as T
 
@@ -40,6 +43,8 @@ PINS = [
     'mesonbuild.mtest:SingleTestRunner._run_cmd',
     'mesonbuild.mtest:SingleTestRunner._run_subprocess',
     'mesonbuild.mtest:TestRun._complete',
+    'mesonbuild.mtest:TestRun.get_results',
+    'mesonbuild.mtest:TestRun.__init__',
     'mesonbuild.mtest:TestResult',
 ]
 TRUSTED = [
@@ -50,6 +55,10 @@ TRUSTED = [
     'with that constant; checked at start-up)',
     'test numbers whose successors stay below 10**4300 (beyond that str() of the number raises: recorded finding)',
     'TAP 12/13 rules as restated by the reference consumer in harness/c18.py (written from the property statement)',
+    'shared-state harvest: syntactic (class-body containers, writes through a class name / cls / type(self) / __class__, '
+    'global statements, mutable defaults, module-level containers of mtest.py) plus the class dicts of the imported module; '
+    'state kept elsewhere (other modules, closures, C extensions) is only seen by the session / fresh-interpreter legs',
+    'the 7 reviewed shared-state sites of harness/c18_state.py REVIEWED (constants, the protocol registry, the console test counter)',
 ]
 
 
@@ -128,17 +137,63 @@ def impl_parse(M, lines: T.Sequence[str]):
 
 
 def canon_events(M, evs) -> str:
-    return ';'.join(canon_event(M, e) for e in evs)
+    try:
+        return ';'.join(canon_event(M, e) for e in evs)
+    except Exception as ex:
+        return f'ADAPTER-ERROR:events:{type(ex).__name__}:{str(ex)[:60]}'
+
+
+def _attr(o: T.Any, name: str) -> T.Any:
+    """adapter: an attribute the implementation no longer has becomes an outcome string, never an exception"""
+    try:
+        return getattr(o, name)
+    except Exception as ex:
+        return f'<no-attr:{name}:{type(ex).__name__}>'
+
+
+def _b(x: T.Any) -> str:
+    return str(int(x)) if isinstance(x, bool) else f'<{type(x).__name__}:{str(x)[:40]}>'
 
 
 def canon_state(p) -> str:
-    pl = 'None' if p.plan is None else \
-        f'{p.plan.num_tests}:{int(p.plan.late)}:{int(p.plan.skipped)}:{opt(p.plan.explanation)}'
-    return (f'{p.state}/{pl}/{p.num_tests}/{p.last_test}/{p.highest_test}/{int(p.found_late_test)}/'
-            f'{int(p.bailed_out)}/{p.version}/{p.lineno}/{p.yaml_lineno}/{enc(p.yaml_indent)}')
+    plan = _attr(p, 'plan')
+    if plan is None:
+        pl = 'None'
+    else:
+        try:
+            pl = f'{plan.num_tests}:{int(plan.late)}:{int(plan.skipped)}:{opt(plan.explanation)}'
+        except Exception as ex:
+            pl = f'<plan-shape:{type(ex).__name__}>'
+    yi = _attr(p, 'yaml_indent')
+    return (f'{_attr(p, "state")}/{pl}/{_attr(p, "num_tests")}/{_attr(p, "last_test")}/{_attr(p, "highest_test")}/'
+            f'{_b(_attr(p, "found_late_test"))}/{_b(_attr(p, "bailed_out"))}/{_attr(p, "version")}/{_attr(p, "lineno")}/'
+            f'{_attr(p, "yaml_lineno")}/{enc(yi) if isinstance(yi, str) else _b(yi)}')
+
+
+_ADAPTER_REPORTED: T.Set[str] = set()
+
+
+def safe(ctx: T.Optional[Ctx], name: str, f: T.Callable[..., T.Any], *a: T.Any, default: T.Any = None) -> T.Any:
+    """run an adapter / oracle helper; a shape change of the implementation (missing attribute, other field
+    names, another type) is recorded once as a failed obligation and becomes an outcome string"""
+    try:
+        return f(*a)
+    except Exception as ex:
+        what = f'{name}: {type(ex).__name__}: {str(ex)[:160]}'
+        if ctx is not None and what not in _ADAPTER_REPORTED:
+            _ADAPTER_REPORTED.add(what)
+            ctx.obligation_failed('adapter shape (the implementation no longer has the shape the harness reads)', what)
+        return default if default is not None else f'ADAPTER-ERROR:{name}:{type(ex).__name__}'
 
 
 def impl_cls(M, line: str) -> str:
+    try:
+        return _impl_cls(M, line)
+    except Exception as ex:
+        return f'ADAPTER-ERROR:cls:{type(ex).__name__}:{str(ex)[:60]}'
+
+
+def _impl_cls(M, line: str) -> str:
     """the cascade of `parse_line` in the _MAIN state, read off the live compiled patterns"""
     P = M.TAPParser
     l = line.rstrip()
@@ -160,9 +215,12 @@ def impl_cls(M, line: str) -> str:
 
 
 def impl_yaml(M, line: str) -> str:
-    P = M.TAPParser
-    m = P._RE_YAML_START.match(line)
-    return f'{opt(m.group(1) if m else None)}:{int(bool(P._RE_YAML_END.match(line)))}'
+    try:
+        P = M.TAPParser
+        m = P._RE_YAML_START.match(line)
+        return f'{opt(m.group(1) if m else None)}:{int(bool(P._RE_YAML_END.match(line)))}'
+    except Exception as ex:
+        return f'ADAPTER-ERROR:yaml:{type(ex).__name__}:{str(ex)[:60]}'
 
 
 class _Harness:
@@ -192,6 +250,96 @@ def impl_verdicts(M, cases: T.Sequence[T.Tuple[T.Sequence[str], bool, bool, int]
                 out.append('RAISE:' + type(ex).__name__)
         return out
     return asyncio.run(main())
+
+
+class RecHarness:
+    """stands in for TestHarness: records the log_subtest calls of TestRunTAP.parse"""
+
+    def __init__(self) -> None:
+        self.calls: T.List[T.Tuple[T.Any, T.Any, T.Any]] = []
+
+    def log_subtest(self, test: T.Any, s: T.Any = None, res: T.Any = None, explanation: T.Any = None, *a: T.Any) -> None:
+        self.calls.append((s, res, explanation))
+
+
+_WARN_RE = re.compile(r'stdout: +(\d+): \S*UNKNOWN:\S* (.*)\Z', re.S)
+_PR_RE = re.compile(r'(\d+)(?:/(\d+))? subtests passed\Z')
+
+
+def canon_run(M, tr, h: RecHarness) -> str:
+    """canonical text of a TestRunTAP after parse + complete (same layout as Driver.Tap.showRun)"""
+    warns, trailer = [], 'none'
+    for w in tr.warnings:
+        m = _WARN_RE.match(w)
+        if m:
+            warns.append(f'{int(m.group(1))}:{enc(m.group(2))}')
+        elif w.startswith('Unknown TAP output lines have been ignored'):
+            trailer = 'ignored'
+        elif 'Unknown TAP output lines for a supported TAP version' in w:
+            trailer = 'bug'
+        else:
+            warns.append('?' + enc(w))
+    errs = [err_kind(m) for m in tr.additional_error.split('TAP parsing error: ') if m]
+    logged = [f'{enc(str(s_))}:{getattr(r, "name", r)}:{opt(e)}' for s_, r, e in h.calls]
+    g = tr.get_results()
+    m = _PR_RE.match(g)
+    pr = '' if not g else ('?' + g if not m else (m.group(1) if m.group(2) is None else f'{m.group(1)}/{m.group(2)}'))
+    note = int('(test program exited with status code' in (tr.stde or ''))
+    return (f'res={tr.res.name}|results={canon_events(M, tr.results)}|errs={",".join(errs)}|warns={",".join(warns)}|'
+            f'trailer={trailer}|note={note}|logged={",".join(logged)}|pr={pr}')
+
+
+def impl_consume(M, cases: T.Sequence[T.Tuple[T.Sequence[str], bool, bool, int, str]], concurrent: T.Optional[T.Any] = None
+                 ) -> T.List[str]:
+    """real TestRunTAP objects: start, parse the stream (res0 = what `self.res` is when parsing ends: RUNNING, or
+    TIMEOUT / INTERRUPT as TestSubprocess.wait sets it), complete with the exit status.  With `concurrent` (an rng)
+    all parse coroutines run interleaved in one event loop, as `meson test` runs several TAP tests at once."""
+    async def one(lines, ef, inter, rc, res0, rng) -> str:
+        try:
+            test = types.SimpleNamespace(protocol=M.TestProtocol.TAP, expected_fail=ef, expected_exitcode=0,
+                                         project_name='p', name='t', workdir=None)
+            tr = M.TestRun(test, {}, 't', None, False, False, inter)
+            tr.start(['prog'])
+            h = RecHarness()
+            gaps = [rng.randint(0, 3) for _ in lines] if rng is not None else None
+
+            async def gen():
+                for i, l in enumerate(lines):
+                    if gaps is not None:
+                        for _ in range(gaps[i]):
+                            await asyncio.sleep(0)
+                    yield l
+            if res0 != 'RUNNING':
+                tr.res = M.TestResult[res0]
+            await tr.parse(h, gen())
+            tr.returncode = rc
+            tr.complete()
+            return canon_run(M, tr, h)
+        except Exception as ex:
+            return 'RAISE:' + type(ex).__name__
+
+    async def main() -> T.List[str]:
+        if concurrent is not None:
+            return list(await asyncio.gather(*(one(*c, concurrent) for c in cases)))
+        return [await one(*c, None) for c in cases]
+    return asyncio.run(main())
+
+
+def expected_class(M, evs, rc: int) -> T.Set[str]:
+    """the classification rule, from the property statement: any failed / unexpectedly passed subtest -> FAIL, an
+    error or bail-out event or a bad exit status -> ERROR (a stream with both kinds is bad either way: FAIL or
+    ERROR), nothing bad: every subtest skipped (or no subtest at all) -> SKIP, else OK"""
+    P = M.TAPParser
+    tests = [e for e in evs if isinstance(e, P.Test)]
+    bad_sub = any(t.result.name in ('FAIL', 'UNEXPECTEDPASS') for t in tests)
+    err = any(isinstance(e, (P.Error, P.Bailout)) for e in evs)
+    if bad_sub and err:
+        return {'FAIL', 'ERROR'}
+    if bad_sub:
+        return {'FAIL'}
+    if err or rc != 0:
+        return {'ERROR'}
+    return {'SKIP'} if all(t.result.name == 'SKIP' for t in tests) else {'OK'}
 
 
 def lines_field(lines: T.Sequence[str]) -> str:
@@ -363,12 +511,16 @@ RULE_TEXT = {
 }
 
 
-def oracle_items(M, items: T.Sequence[Item]) -> T.Optional[str]:
+def oracle_items(M, items: T.Sequence[Item], evs: T.Optional[list] = None) -> T.Optional[str]:
     lines = [it.text for it in items]
-    evs, _p, ex = impl_parse(M, lines)
-    if ex is not None:
-        return f'parser raised {type(ex).__name__}'
-    want, got = reference(items), observed(M, evs)
+    if evs is None:
+        evs, _p, ex = impl_parse(M, lines)
+        if ex is not None:
+            return f'parser raised {type(ex).__name__}'
+    try:
+        want, got = reference(items), observed(M, evs)
+    except Exception as ex:
+        return f'event objects no longer have the documented fields ({type(ex).__name__}: {str(ex)[:80]})'
     for k in ('tests', 'errors', 'plans', 'bails', 'versions', 'unknown'):
         if want[k] != got[k]:
             return f'{RULE_TEXT[k]}: expected {want[k]!r}, got {got[k]!r}'
@@ -376,6 +528,13 @@ def oracle_items(M, items: T.Sequence[Item]) -> T.Optional[str]:
 
 
 def oracle_events(M, evs) -> T.Optional[str]:
+    try:
+        return _oracle_events(M, evs)
+    except Exception as ex:
+        return f'event objects no longer have the documented fields ({type(ex).__name__}: {str(ex)[:80]})'
+
+
+def _oracle_events(M, evs) -> T.Optional[str]:
     """rules that every event list must satisfy whatever the text was"""
     P = M.TAPParser
     plans = [e for e in evs if isinstance(e, P.Plan)]
@@ -653,11 +812,17 @@ def gen_tables(ctx: Ctx) -> None:
 
     def lit(l: T.List[str]) -> str:
         return '[' + ', '.join(json.dumps(x) for x in l) + ']'
+    from . import c18_state
+    attrs = c18_state.parser_class_attrs(M)
+    mut = c18_state.unreviewed_parser_mutables(M)
+    pairs = '[' + ', '.join(f'({json.dumps(k)}, {json.dumps(v)})' for k, v in attrs) + ']'
     body = ('/- generated by harness/c18.py gen_tables from mesonbuild.mtest.TestResult; do not edit -/\n'
             'namespace MesonModel.Generated.TapTables\n'
             f'def members : List String := {lit(members)}\n'
             f'def isBad : List String := {lit(bad)}\n'
             f'def isOk : List String := {lit(okl)}\n'
+            f'def parserClassAttrs : List (String × String) := {pairs}\n'
+            f'def parserMutableClassAttrs : List String := {lit(mut)}\n'
             'end MesonModel.Generated.TapTables\n')
     path = os.path.join(common.LEAN, 'MesonModel', 'Generated', 'TapTables.lean')
     os.makedirs(os.path.dirname(path), exist_ok=True)
@@ -730,7 +895,7 @@ def add_stream(M, ctx: Ctx, b: Batch, lines: T.Sequence[str], with_state: bool =
         return None
     b.add('parse', list(lines), 'parse ' + lines_field(lines), canon_events(M, evs))
     if with_state:
-        b.add('state', list(lines), 'state ' + lines_field(lines), canon_state(p))
+        b.add('state', list(lines), 'state ' + lines_field(lines), safe(ctx, 'canon_state', canon_state, p))
     msg = oracle_events(M, evs)
     if msg:
         ctx.violation(key_of('events', lines), msg, {'lines': list(lines)})
@@ -744,16 +909,48 @@ def check_items(M, ctx: Ctx, items: T.Sequence[Item]) -> None:
         ctx.violation(key_of('tap', lines), msg, {'lines': lines, 'items': [list(it) for it in items]})
 
 
+def leg(ctx: Ctx, name: str, f: T.Callable[..., T.Any], *a: T.Any) -> None:
+    """a leg that trips over a shape change of the implementation is a failed obligation, not a harness crash"""
+    try:
+        f(*a)
+    except (common.ToolFailure, subprocess.TimeoutExpired):
+        raise
+    except Exception as ex:
+        import traceback
+        tb = traceback.extract_tb(ex.__traceback__)[-1]
+        ctx.obligation_failed(f'{name} leg: the implementation no longer has the shape the harness reads',
+                              f'{type(ex).__name__}: {str(ex)[:200]} at {os.path.basename(tb.filename)}:{tb.lineno}')
+
+
 def run(ctx: Ctx) -> None:
     M = mt()
     rng = ctx.rng
     check_domain(ctx)
     ctx.rule = ('corpus (every stream literal of unittests/taptests.py + regression streams), every stream of length '
                 '<= 3 (quick) / <= 4 (thorough) over a 25-form line alphabet, random structured mostly-valid streams with '
-                'faults (length <= 40), random fragment/ASCII lines and streams. A parse case is non-trivial when its '
+                'faults (length <= 40), random fragment/ASCII lines and streams; sessions: ~1200 (quick) streams through fresh '
+                'parsers in one process in 3 (6) orders and in 4 (8) fresh interpreters with different first streams, second '
+                'parse on a used parser object, every verdict case also parsed concurrently with 39 others; consumer: the whole '
+                'TestRunTAP state after parse + complete for every verdict case. A parse case is non-trivial when its '
                 'event-kind signature differs from the most common signature of its batch; counted distinct by input.')
     b = Batch(ctx)
     verdict_cases: T.List[T.Tuple[T.List[str], bool, bool, int]] = []
+    import time as _time
+    legs: T.Dict[str, float] = {}
+    ctx.extra['leg_seconds'] = legs
+    _t = [_time.time()]
+
+    def mark(name: str) -> None:
+        legs[name] = round(_time.time() - _t[0], 1)
+        _t[0] = _time.time()
+
+    # 00. state that outlives a parser object: harvest of shared state, then MANY streams through fresh parsers in ONE
+    #     process in several orders (this process first, before any other leg has parsed anything; fresh interpreters too)
+    import sys as _sys0
+    from . import c18_state
+    c18_state.check_shared_state(M, ctx)
+    leg(ctx, 'sessions', c18_state.run_sessions, _sys0.modules[__name__], M, ctx)
+    mark('sessions')
 
     # 0. numbers at and beyond CPython's int() digit limit (the former finding F-TAP-INT, repaired in /repo)
     import sys as _sys
@@ -802,6 +999,7 @@ def run(ctx: Ctx) -> None:
     ctx.exhaustive = False
     b.flush()
 
+    mark('corpus+exhaustive')
     # 3. random structured streams
     for _ in range(ctx.scale(12000, 150000)):
         items = rand_items(rng, rng.choice([2, 4, 8, 8, 16, 40]))
@@ -813,6 +1011,7 @@ def run(ctx: Ctx) -> None:
             verdict_cases.append((lines, rng.random() < 0.2, rng.random() < 0.1, rng.choice([0, 0, 0, 1, 77, 99, -9])))
     b.flush()
 
+    mark('structured')
     # 4. single structured test lines in a fresh parser (number / name / directive / explanation rules)
     for _ in range(ctx.scale(30000, 300000)):
         it = rand_test_item(rng)
@@ -821,6 +1020,7 @@ def run(ctx: Ctx) -> None:
         ctx.tag('gen:testline')
     b.flush()
 
+    mark('testlines')
     # 5. line-level fuzz: classifier vs live regexes, yaml start/end, then short random streams of such lines
     for _ in range(ctx.scale(60000, 600000)):
         l = rand_line(rng)
@@ -841,6 +1041,7 @@ def run(ctx: Ctx) -> None:
             verdict_cases.append((lines, False, False, rng.choice([0, 0, 1])))
     b.flush()
 
+    mark('fuzz')
     # 6. parse_test called directly, including directives the regexes never produce
     for _ in range(ctx.scale(4000, 40000)):
         ok = rng.random() < 0.5
@@ -857,6 +1058,7 @@ def run(ctx: Ctx) -> None:
         b.add('ptest', [ok, num, name, d, e], f'ptest {int(ok)}|{num}|{enc(name)}|{opt(d)}|{opt(e)}', ans)
     b.flush()
 
+    mark('parse_test')
     # 7. verdicts through real TestRunTAP objects
     exh_v = [([it.text for it in combo], False, False, rc)
              for combo in itertools.product(alpha, repeat=2) for rc in (0, 1)]
@@ -887,13 +1089,63 @@ def run(ctx: Ctx) -> None:
                                   {'lines': lines, 'returncode': rc})
     b.flush()
 
+    mark('verdicts')
+    # 7b. the consumer as a state machine: whole TestRunTAP state after parse + complete (results, additional_error,
+    #     warnings + trailer, log_subtest calls, get_results, exit-status note), tests killed while parsing, and
+    #     several TAP tests parsed concurrently in one event loop; classification oracle from the property statement
+    leg(ctx, 'consumer', consumer_leg, M, ctx, b, verdict_cases)
+    b.flush()
+
     # 8. byte-level leg: program bytes -> read_decode / real pipe / meson test -> events and verdict
     import sys as _sys2
     from . import c18_bytes
-    c18_bytes.run(_sys2.modules[__name__], M, ctx)
+    mark('consumer')
+    leg(ctx, 'byte-level', c18_bytes.run, _sys2.modules[__name__], M, ctx)
+    mark('bytes')
+    c18_state.annotate_history(ctx)
     ctx.assumptions += TRUSTED
     ctx.assumptions.append('expected_fail / interactive runs are compared with the model only; the bad-iff sentence is '
                            'checked for ordinary runs (should_fail inverts it by design, interactive TAP runs are IGNORED)')
+
+
+def consumer_leg(M, ctx: Ctx, b: 'Batch', verdict_cases: T.List[T.Tuple[T.List[str], bool, bool, int]]) -> None:
+    rng = ctx.rng
+    cons = [(lines, ef, inter, rc, 'RUNNING') for (lines, ef, inter, rc) in verdict_cases
+            if not any(len(l) > 4000 for l in lines)]
+    cons += [(lines, ef, inter, rc, rng.choice(['TIMEOUT', 'INTERRUPT'])) for (lines, ef, inter, rc, _r) in cons[::7]]
+    seq = impl_consume(M, cons)
+    for (lines, ef, inter, rc, res0), r in zip(cons, seq):
+        b.add('consume', [lines, ef, inter, rc, res0], f'consume {int(ef)}|{int(inter)}|{rc}|{res0}|{lines_field(lines)}', r)
+        ctx.tag('consume:' + res0)
+        if r.startswith('RAISE') or ef or inter or res0 != 'RUNNING':
+            continue
+        evs, _p, ex = impl_parse(M, lines)
+        if evs is None:
+            continue
+        got = r.split('|')[0][4:]
+        want = safe(ctx, 'expected_class', expected_class, M, evs, rc, default={got})
+        if got not in want:
+            ctx.violation(key_of(f'class:{rc}', lines),
+                          f'TAP test reported {got}; its subtests / error events / exit status {rc} call for {sorted(want)}',
+                          {'lines': lines, 'returncode': rc})
+        recorded = r.split('|')[1][8:]
+        mine = canon_events(M, [e for e in evs if isinstance(e, M.TAPParser.Test)])
+        if recorded != mine:
+            ctx.violation(key_of('results', lines), 'subtests recorded by TestRunTAP differ from the subtest events of its stream',
+                          {'lines': lines, 'recorded': recorded[:300], 'events': mine[:300]})
+    plain = [c for c in cons if c[4] == 'RUNNING']
+    for a in range(0, len(plain), 40):
+        chunk = plain[a:a + 40]
+        conc = impl_consume(M, chunk, concurrent=rng)
+        alone = impl_consume(M, chunk)
+        for c, x, y in zip(chunk, conc, alone):
+            ctx.count()
+            ctx.tag('consume:concurrent')
+            if x != y:
+                ctx.violation(key_of('concurrent', c[0]),
+                              'a TAP test parsed while other TAP tests are being parsed in the same event loop is reported '
+                              f'differently: alone {y[:200]!r}, interleaved {x[:200]!r}',
+                              {'lines': c[0], 'returncode': c[3], 'parsed_concurrently': [k[0] for k in chunk if k is not c][:5]})
 
 
 # ------------------------------------------------------------------ search / replay
@@ -950,6 +1202,14 @@ def recognise(line: str) -> T.Optional[Item]:
 
 
 def search(ctx: Ctx, disagreements: T.List[dict]) -> None:
+    try:
+        _search(ctx, disagreements)
+    finally:
+        from . import c18_state
+        c18_state.annotate_history(ctx)
+
+
+def _search(ctx: Ctx, disagreements: T.List[dict]) -> None:
     """failing-input search on the implementation only: the oracles of `run` applied to the disagreeing inputs,
     their shrunk forms and neighbours, then a deeper structured pass"""
     M = mt()
@@ -957,9 +1217,9 @@ def search(ctx: Ctx, disagreements: T.List[dict]) -> None:
     streams: T.List[T.List[str]] = []
     for d in disagreements:
         inp = d.get('input')
-        if d.get('kind') in ('parse', 'state') and isinstance(inp, list):
+        if d.get('kind') in ('parse', 'state', 'session') and isinstance(inp, list):
             streams.append([str(x) for x in inp])
-        elif d.get('kind') == 'verdict' and isinstance(inp, list):
+        elif d.get('kind') in ('verdict', 'consume') and isinstance(inp, list):
             streams.append([str(x) for x in inp[0]])
         elif d.get('kind') in ('cls', 'yaml') and isinstance(inp, str):
             streams += [[inp], ['TAP version 13', 'ok', inp, 'ok 2'], ['1..1', inp]]
@@ -1042,6 +1302,12 @@ def replay(ctx: Ctx, rep: dict) -> None:
     if not isinstance(lines, list):
         print('no stream in replay file:', json.dumps(case)[:300])
         return
+    if case.get('history') is not None:
+        import sys as _sys3
+        from . import c18_state
+        c18_state.replay(_sys3.modules[__name__], M, ctx, case)
+        for h in case['history']:
+            impl_parse(M, h)
     print('lines:', lines)
     evs, _p, ex = impl_parse(M, lines)
     if ex is not None:
